@@ -53,6 +53,14 @@ RootsDistinct == \A t \in 1..(MaxTotal + 2) : t # n => RootOf(t) # root
 (* the driver requires the real code to show exactly these (KNOWN_FINDINGS key ProofBindsTotal).         *)
 ProofBindsTotal == confusions = {}
 
+(* against an EMPTY expected root (nil or zero-length: a crafted header) nothing verifies - in particular not a    *)
+(* recomputation that failed (Compute = NilH) because the proof is structurally wrong for (index, total)            *)
+EmptyRootNeverVerifies ==
+  /\ \A idx \in Idx(n), lf \in {Leaf(j) : j \in 0..(n - 1)} \cup {Foreign}, au \in Candidates(n) \cup {<<>>} :
+        ~Verify(idx, n, lf, au, NilH)
+  /\ \A t \in Totals(n), idx \in Idx(n), lf \in {Leaf(j) : j \in 0..(n - 1)} \cup {Foreign},
+        au \in {ProofOf(j, n) : j \in 0..(n - 1)} \cup {<<>>} : ~Verify(idx, t, lf, au, NilH)
+
 (* even under a wrong total a genuine proof never vouches for another leaf hash than its own, *)
 (* and never for a negative index or one >= the claimed total                               *)
 WrongTotalStillSound ==
